@@ -51,6 +51,7 @@ structure Loc (K : Type) where
   val : Array K
   ord : Array Nat
   D : Array K
+  deriving DecidableEq, Repr
 
 /-- an event of `sweep`/`solve`: `(tid, r)` = the iteration `r` of the row loop of thread `tid` -/
 abbrev Ev := Nat × Nat
